@@ -81,7 +81,8 @@ ACTIONS_PV = [(ni, ug, se) for ni in (False, True) for ug in (False, True)
 
 def spans_of_dataset(ds):
     out = []
-    t = 1_700_000_000 * 10 ** 9
+    # epoch magnitude, not a multiple of 256 ns (spacing of doubles there)
+    t = 1_700_000_000 * 10 ** 9 + 123_456_789
     for k, (name, nodes) in enumerate(DATASETS[ds]):
         for i, (typ, par) in enumerate(nodes):
             if ds == "buffered":
